@@ -104,7 +104,7 @@ func (w *wres) violation(key string, size int, artefact map[string]any) {
 	w.Viol[key] = &violRec{Key: key, Size: size, Artefact: cp}
 }
 
-var sections = []string{"sidx", "itersort", "measure", "limit", "stream", "idxsort"}
+var sections = []string{"sidx", "sidxdup", "itersort", "measure", "limit", "stream", "sresult", "idxsort"}
 
 func wantSection(s string) bool {
 	only := ev.Arg("--section")
@@ -142,6 +142,11 @@ func main() {
 				sidxWorker(wi, wn, thorough, base, res)
 				res.endSection("sidx")
 			}
+			if wantSection("sidxdup") {
+				budget(3*time.Minute, 9*time.Minute)
+				sidxDupWorker(wi, wn, thorough, base, res)
+				res.endSection("sidxdup")
+			}
 			if wantSection("itersort") {
 				itersortWorker(wi, wn, thorough, res)
 				res.endSection("itersort")
@@ -159,6 +164,10 @@ func main() {
 				budget(4*time.Minute, 9*time.Minute)
 				streamWorker(wi, wn, thorough, base, res)
 				res.endSection("stream")
+			}
+			if wantSection("sresult") {
+				sresultWorker(wi, wn, thorough, res)
+				res.endSection("sresult")
 			}
 			if wantSection("idxsort") {
 				idxsortWorker(wi, wn, thorough, res)
@@ -260,8 +269,8 @@ func main() {
 	r.Set("distinct_outcomes", len(outcomes))
 	r.Set("violating_evaluations_by_key", violCount)
 	r.Set("bounds", boundsText(thorough))
-	r.Set("rule", "every enumerated case is distinct by construction (dataset x layout x query parameters); non-trivial = sidx/measure: the reference result has >=2 rows and the data sits in >=2 blocks (parts/series), so a cross-block merge decides the order; itersort: >=2 non-empty input iterators; stream: >=2 parts and >=2 matching rows; idxsort: >=2 series over >=2 segments; limit: the window cuts the list (offset>0 or limit<len) and the list has >=2 rows")
-	r.Assume("sidx entries carry pairwise distinct payloads (sidx de-duplicates equal payloads by design, which is trace-specific and not part of C09)")
+	r.Set("rule", "every enumerated case is distinct by construction (dataset x layout x query parameters); non-trivial = sidx/measure: the reference result has >=2 rows and the data sits in >=2 blocks (parts/series), so a cross-block merge decides the order; itersort: >=2 non-empty input iterators; stream: >=2 parts and >=2 matching rows; idxsort: >=2 series over >=2 segments; sidxdup: a payload shared by >=2 entries has an entry inside and an entry outside the key range, or >=2 entries inside; sresult: some worker accumulates >=2 batches in a Pull and the history has >=2 rows; limit: the window cuts the list (offset>0 or limit<len) and the list has >=2 rows")
+	r.Assume("section sidx: entries carry pairwise distinct payloads; section sidxdup: entries share payloads and, because sidx de-duplicates equal payloads by design, completeness is judged per payload (a payload with an entry in range is returned) and the surviving occurrence is not judged")
 	r.Assume("QuerySync with MaxBatchSize>0 is judged as a documented result budget: an ordered prefix with at least min(MaxBatchSize, matches) entries")
 	r.Assume("measure rows have pairwise distinct (series, timestamp): version de-duplication is C02's subject")
 	r.Finish()
@@ -276,8 +285,10 @@ func boundsText(thorough bool) map[string]any {
 			"quick: layouts 2/3/9, the 21 reduced ranges, MaxBatchSize {0,1,2,3}, series sets {2,1},{2}; always asc/desc and stream+sync", p.maxN1, p.maxN2, p.fullN1, p.fullN2),
 		"itersort": "every distribution of <=6 items with keys 1..4 over <=3 sorted iterators (empty iterators included), asc/desc",
 		"measure":  measureBoundsText(thorough),
-		"limit":    "offset,limit in 0..7 x 0..7; lists of <=6 rows with keys 1..4 over <=3 children; asc/desc; child chunking",
+		"limit":    "offset,limit in 0..7 x 0..7; lists of <=6 rows with keys 1..4 over <=3 children; asc/desc; child chunking; mtagorder: cross-group merge ordered by an indexed tag, every tag projection containing the order-by tag (34) x every distribution of <=4 rows over 2 groups / <=3 rows over 3 groups x asc/desc",
 		"stream":   streamBoundsText(thorough),
+		"sresult":  sresultBoundsText(thorough),
+		"sidxdup":  sidxDupBoundsText(thorough),
 		"idxsort":  "index-mode measure merge: <=4 (quick) / <=5 (thorough, 5: sort values non-decreasing in series id) series, sort values {1,2,3}, each series in any non-empty subset of 3 segments, asc/desc",
 	}
 }
@@ -322,6 +333,14 @@ func replay(p string) {
 		var c tCase
 		must(json.Unmarshal(a.Artefact.Case, &c))
 		ok = streamReplay(&c)
+	case "sresult":
+		var c rCase
+		must(json.Unmarshal(a.Artefact.Case, &c))
+		ok = sresultReplay(&c)
+	case "sidxdup":
+		var c sCase
+		must(json.Unmarshal(a.Artefact.Case, &c))
+		ok = sidxDupReplay(&c)
 	case "idxsort":
 		var c xCase
 		must(json.Unmarshal(a.Artefact.Case, &c))
